@@ -1,7 +1,7 @@
 """C07 - every grammatical experiment compiles and evaluates."""
 from hypothesis import strategies as st
 
-from .. import common, gen, refgrammar, runner, sut
+from .. import refinterp, common, gen, refgrammar, runner, sut
 from .. import model as M
 
 ID = "C07"
@@ -242,6 +242,40 @@ def fixed_programs():
         yield {"prog": p, "inputs": ins, "shape": "fixed"}
 
 
+def unroutable_programs():
+    """chains without a final else, asked about values of every shape that match no link: the outcome is the unroutable error
+    (never a TypeError from building its message), for one, two and no condition fields"""
+    I, L, S, T = M.ident, M.lit_int, M.lit_str, M.tup
+    R = M.ret([(S("a"), "1"), (S("b"), "1")])
+    odd = [(), (2, 3, 9), (1,), (1, 2), [1, 2], [], {"a": 1}, {}, "s%d", "100%", "%(x)s", "{0}", "", None, 0, -1, float("nan"), b"x", ("%s", "%d")]
+    progs = [M.program("exp", M.if_([(M.cmp_(I("app_version"), "==", T([L("2"), L("4"), L("0")])), R)], None), splitters=["uid"]),
+             M.program("exp", M.if_([(M.cmp_(S("beta"), "in", I("tags")), R), (M.cmp_(I("tags"), "==", S("never")), R)], None), splitters=["uid"]),
+             M.program("exp", M.if_([(M.cmp_(I("x"), "==", S("never")), R)], None)),
+             M.program("exp", M.if_([(M.and_(M.cmp_(I("x"), "==", S("never")), M.cmp_(I("y"), "!=", I("x"))), R)], None), salt="s", splitters=["x"]),
+             M.program("exp", M.if_([(M.cmp_(I("x"), "==", S("n1")), M.if_([(M.cmp_(I("x"), "==", S("n2")), R)], None))], M.if_([(M.cmp_(I("x"), "==", S("n3")), R)], None)))]
+    for p in progs:
+        fields = M.all_fields(p)
+        envs = []
+        for v in odd:
+            if isinstance(v, (list, dict)) and "tags" not in fields and "x" in (p["splitters"] or []):
+                continue
+            env = {f: ("u1" if f == "uid" else v) for f in fields}
+            try:
+                refinterp.run(p, env)
+            except TypeError:
+                continue  # not type-compatible with this program (e.g. `"beta" in None`): outside the property
+            envs.append(env)
+        yield {"prog": p, "inputs": [M.enc_inputs(e) for e in envs if _encodable(e)], "shape": "unroutable"}
+
+
+def _encodable(env):
+    try:
+        M.enc_inputs(env)
+        return True
+    except TypeError:
+        return False
+
+
 def deep_programs():
     """the stated maxima combined: 12 levels of nesting where every level is an else-if chain of 60 links, the next level
     sitting in the last else-if (or in the else) - one path runs through 720 links"""
@@ -285,6 +319,9 @@ def run(ctx, rec):
                               "compile / evaluate (still failing for: %s)" % ", ".join(sorted(set(still))))
     if ctx.shard == 0:
         runner.direct_run(ctx, rec, "fixed-shapes", fixed_programs(), judge, known_filter=known_filter)
+        if rec.violations:
+            return
+        runner.direct_run(ctx, rec, "unroutable-inputs-of-every-shape", unroutable_programs(), judge, known_filter=known_filter)
         if rec.violations:
             return
         runner.direct_run(ctx, rec, "combined-maximum-shapes", deep_programs(), judge, known_filter=known_filter)
